@@ -238,6 +238,22 @@ def order_rule(P, chk):
                 "entry order by row_order: %s" % table, "OldToNew => entries.iter(), NewToOld => entries.iter().rev()")
 
 
+def no_reorder(P, chk):
+    """the transactions are pushed in statement order and the vector is never reordered afterwards (the opening /
+    closing assertions were attached by position)"""
+    b = P.body(IMPORT)
+    bad = []
+    for bb, t in b.calls():
+        nm = short(callee_def(t))
+        if nm in ("reverse", "sort", "sort_by", "sort_by_key", "sort_by_cached_key", "sort_unstable", "sort_unstable_by", "sort_unstable_by_key",
+                  "rotate_left", "rotate_right", "swap", "dedup", "dedup_by_key", "retain", "truncate", "drain", "insert", "remove", "pop", "swap_remove", "clear"):
+            if t["args"] and b.local_name(q.named_local(b, t["args"][0]) or 0) == "res":
+                bad.append("%s at %s" % (nm, b.loc(bb)))
+    chk.require(not bad, R_BAL, "import|the result is never reordered after the assertions were placed", b.loc(),
+                "the transaction vector is modified by %s: the opening / closing assertions no longer sit on the first / last transaction" % bad,
+                "only push and last_mut touch `res`")
+
+
 def charge_rules(P, chk):
     b = P.body(M + "::add_charges")
     chk.analysed(b)
@@ -281,6 +297,7 @@ def run(P, chk, tier):
     sign_rules(P, chk)
     date_rules(P, chk)
     balance_rules(P, chk)
+    no_reorder(P, chk)
     order_rule(P, chk)
     charge_rules(P, chk)
     importers.record_loop(P, chk, IMPORT, "entry / detail", only_if=(("is_empty", True),), not_record_loops=("statements",))
